@@ -973,15 +973,20 @@ func judgeCell(o *kit.Outcome, cr *cellRun) (violated bool) {
 		got := fmt.Sprintf("%T", res.err)
 		switch st {
 		case 404:
-			_, ok = res.err.(*osmapi.NotFoundError)
+			var e1 *osmapi.NotFoundError
+			ok = errors.As(res.err, &e1)
 		case 403:
-			_, ok = res.err.(*osmapi.ForbiddenError)
+			var e2 *osmapi.ForbiddenError
+			ok = errors.As(res.err, &e2)
 		case 410:
-			_, ok = res.err.(*osmapi.GoneError)
+			var e3 *osmapi.GoneError
+			ok = errors.As(res.err, &e3)
 		case 414:
-			_, ok = res.err.(*osmapi.RequestURITooLongError)
+			var e4 *osmapi.RequestURITooLongError
+			ok = errors.As(res.err, &e4)
 		default:
-			e, is := res.err.(*osmapi.UnexpectedStatusCodeError)
+			var e *osmapi.UnexpectedStatusCodeError
+			is := errors.As(res.err, &e)
 			ok = is && e.Code == st
 			if is && !ok {
 				got = fmt.Sprintf("UnexpectedStatusCodeError{Code:%d}", e.Code)
